@@ -39,7 +39,7 @@ FO = ['sdc11073.mdib.providermdib.ProviderMdib._transaction_manager', 'sdc11073.
       'sdc11073.provider.subscriptionmgr_base.SubscriptionsManagerBase.send_to_subscribers',
       'sdc11073.provider.subscriptionmgr_async.SubscriptionsManagerBaseAsync.send_to_subscribers']
 SK = ['metric', 'metrics_two_mds', 'alert', 'component', 'operational', 'context_new_and_update']
-DK = ['update_descriptor_and_state', 'create', 'delete_leaf', 'delete_subtree', 'create_in_second_mds']
+DK = ['update_descriptor_and_state', 'create', 'delete_leaf', 'delete_subtree', 'create_in_second_mds', 'delete_child_then_parent']
 RK = ['metric_nested', 'context_nested', 'alert_flat']
 E3_STUBS = ['provider = tests.mockstuff.SomeDevice (70041_MDIB_Final.xml), MockWsDiscovery, no HTTP server; '
             'send_to_subscribers of every subscriptions manager is wrapped to log a send event and record (action, MdibVersion)',
@@ -65,9 +65,10 @@ def obligations(tier):
                       stubs=STUBS + ['real PeriodicReportsHandler, thread never started'],
                       bounds='two consecutive transactions on the same state with distinct symbolic strs <= 2; mv, sv in N',
                       claim='retained copies keep version label, StateVersion and value of their own commit'))
-    combos = [('metric', 'metric'), ('metric', 'context'), ('descriptor', 'metric')]
+    combos = [('metric', 'metric'), ('metric', 'context'), ('descriptor', 'metric'), ('waveform', 'metric')]
     if tier == 'thorough':
-        combos += [('context', 'context'), ('descriptor', 'descriptor'), ('alert', 'metric'), ('metric', 'metric', 'metric'),
+        combos += [('context', 'context'), ('descriptor', 'descriptor'), ('alert', 'metric'), ('waveform', 'waveform'),
+                   ('waveform', 'context'), ('metric', 'metric', 'metric'),
                    ('metric', 'context', 'descriptor')]
     for mgr in ('sync', 'async'):
         for combo in combos:
@@ -96,7 +97,7 @@ def _build(mgr):
 
         def wrapped(payload, action, vg, _orig=orig, _name=name):
             rec.event('send', _name)
-            sent.append((_name, action.rsplit('/', 1)[-1], vg.mdib_version))
+            sent.append((_name, action.rsplit('/', 1)[-1], vg.mdib_version, rec.label()))
             return _orig(payload, action, vg)
         m.send_to_subscribers = wrapped
     return rec, dev, sent
@@ -133,6 +134,10 @@ def ob_order(ctx):
                         continue          # different subscription managers (different subscriber sets / services)
                     # a's report is handed over before b's although a committed the higher version
                     clauses.append(z3.And(order[(a, sa)] < order[(b, sb)], order[(a, wa[-1])] > order[(b, wb[-1])]))
+            # a's report is labelled with a version read after b committed a later version (label of another commit)
+            for ra in sched.idx_of(templates[a], 'read', 'mdib_version'):
+                if ra > wa[-1] and any(sa > ra for sa in sched.idx_of(templates[a], 'send')):
+                    clauses.append(z3.And(order[(b, wb[-1])] > order[(a, wa[-1])], order[(b, wb[-1])] < order[(a, ra)]))
     s.add(z3.Or(*clauses) if clauses else z3.BoolVal(False))
     sample = {'templates': {k: [f'{a}:{b}' for a, b in v] for k, v in templates.items()}}
     spurious = 0
@@ -168,8 +173,17 @@ def _replay_order(rec, dev, sent, p, schedule):
     results, errors = rec.run_threads(acts)
     if rec.failed or errors:
         return 'ok', f'replay could not follow the schedule ({rec.failed or errors})'
+    # the version each writer committed: order of the mdib_version writes in the replay
+    base = min((v for _m, _a, v, _l in sent), default=0)
+    commits = [lab for (lab, _i, kind, what) in rec.replay_log if (kind, what) == ('write', 'mdib_version')]
+    first = dev.mdib.mdib_version - len(commits) + 1
+    version_of = {lab: first + n for n, lab in enumerate(commits)}
+    for mgr_name, action, version, lab in sent:
+        if lab in version_of and version != version_of[lab]:
+            return 'report-labelled-with-mdib-version-of-another-commit', \
+                f'{action} of writer {lab} (committed version {version_of[lab]}) was sent with MdibVersion {version}; sequence {sent}'
     last = {}
-    for mgr_name, action, version in sent:
+    for mgr_name, action, version, _lab in sent:
         key = mgr_name
         if key in last and version < last[key]:
             return 'report-with-lower-mdib-version-sent-after-higher', \
